@@ -11,13 +11,21 @@ def run(tier):
         k = 200 + 4 * (n1 + n2)
         r.add(Ob('two-pipelines-T%d-len%d-then-T%d-len%d' % (t1, n1, t2, n2), 'h_pipe.c', [up], defines=['THREADS=%d' % t1, 'DLEN=%d' % n1, 'ENC=1', 'K=%d' % k, 'SCHED_CANON', 'SECOND_T=%d' % t2, 'SECOND_LEN=%d' % n2] + PIPE_DEFS,
                  unwind=k + 40, timeout=900, mem_gb=24, envs=PIPE_ENVS, replay='none', cbmc_extra=FS))
+    # CLI process globals (optind, fout; anchor valget/getopts.cpp): an earlier command line parsed in the same process image, ended on ANY exit path
+    # (rejected inside the option loop, rejected after it, accepted), then the command line under test: it starts scanning at argv[1] and
+    # everything C17's tail obligations establish holds unchanged -> the parse is independent of the history
+    ut, ureal = U_cli_tail(), U_cli_real()
+    for n in (1, 2):
+        r.add(Ob('cli-parse-after-earlier-parse-%d-options' % n, 'h_c17.c', [ut], defines=['H_TAIL', 'TAIL_HISTORY', 'NOPT=%d' % n, 'ENV_NO_EXIT', 'IR2C_EXCEPTIONS'], unwind=270, timeout=600, mem_gb=16,
+                 envs=CLI_ENVS, cbmc_extra=FS, replay_units=[ureal], replay_envs=['env_native.c', 'env_native_file.c'],
+                 note='earlier parse: 0..3 options, each leaving an arbitrary Inv state, the last one rejected or not; parseOpts replaced by "any Inv state, any verdict" (C17 step obligations)'))
     # failing operations leave the process-global state initial: gate harness (C11) asserts it for every rejected input
     gate_obligations(r, tier, [0, 9, 74, 138] if tier == 'quick' else list(range(0, 161, 10)), prefix='reject-', ops=('decrypt', 'verify'))
     r.bounds = ['histories: failing decrypt, then encrypt, then decrypt of its output, in one process image, for %s; after EVERY operation the mutable process globals of the kernel (buffergroup::instance, bufferctrl::live_num, buffergroup::mtx) are asserted to be in their initial state, which makes each operation\'s behaviour independent of the history (induction over histories)' % cfgs]
-    r.outside = ['getopt state / fout of the CLI (C17)', 'libc-internal state (rand), heap exhaustion']
+    r.outside = ['glibc-internal getopt state other than optind (nextchar inside a bundled option word)', 'libc-internal state (rand), heap exhaustion']
     r.assumptions = ['as C01']
     r.run_all(jobs=10)
     return r.finish()
 
 def replay(rp):
-    return generic_replay(rp, {'kern_e2e_b1': lambda: U_kern('kern', buf=1), 'kern_gate': U_kern, 'kern': U_kern})
+    return generic_replay(rp, {'cli_tail': U_cli_real, 'cli_real': U_cli_real, 'kern_e2e_b1': lambda: U_kern('kern', buf=1), 'kern_gate': U_kern, 'kern': U_kern})
